@@ -16,14 +16,17 @@ def main():
     return dp.doc_main(
         'C07',
         assumptions=['I3: a measure starts at the first CORE-category row (before any barline) and at every barline row',
-                     'hidden barlines are not generated here', 'only body lines (data + barlines) are compared: the reconstructed '
+                     'invisible barlines are generated in a population of their own (their export is finding D18)', 'only body lines (data + barlines) are compared: the reconstructed '
                      'preamble of an excerpt belongs to C08'],
         rule='seeded random kern-only and mixed documents x every measure range; non-trivial = distinct documents with >= 3 measures',
         mc=[('MC_SpinePaths', 'MC_SpinePaths_c07.cfg', 'MC_SpinePaths(PartitionLaw)')],
         populations=[('kern_only', dp.sess_c07, 90, 1500, {}),
                      ('mixed', dp.sess_c07, 40, 600, {'mixed': True, 'profile': 'main'}),
-                     ('mixed_sigs', dp.sess_c07, 40, 400, {'mixed': True, 'profile': 'main', 'sigs': True})],
-        explored=['unequal_sig_kinds'],
+                     ('mixed_sigs', dp.sess_c07, 40, 400, {'mixed': True, 'profile': 'main', 'sigs': True}),
+                     # invisible barlines open measures like any barline (strict: index, count, iteration, rejections); what is
+                     # exported for them is the recorded finding D18
+                     ('invisible_barlines', dp.sess_c07, 40, 400, {'hidden': True})],
+        explored=['unequal_sig_kinds', 'hidden_barline'],
         nontrivial=lambda s: sum(1 for e in s['log'] if e['ev'] == 'call' and e['op'] == 'dumps') > 12)
 
 
